@@ -1251,3 +1251,192 @@ pub fn report_debug_page(rep: &mut crate::core::Report, seed: u64) -> serde_json
     serde_json::json!({"announcements": d.cases, "pages_served": d.served,
         "rule": "a real node state (gossip + validator network) whose address book received, through ValidatorAddrsWatch::update, one announcement signed by a committee member with an extreme address / version / timestamp; the real debug_page::Server answers one HTTP request over loop-back TCP; one run per listed announcement"})
 }
+
+// ---------------------------------------------------------------------------------------------
+// The node's own accept loop (C10): the real `Network::new` + `Runner::run` (lib.rs: listener,
+// accept-rate limiter, preface dispatch, one task per connection) against raw TCP peers that behave
+// in each of a listed set of ways.  Whatever a peer does to its own connection, the network component
+// must keep running and must still admit an honest peer afterwards.
+
+pub struct AcceptOutcome {
+    pub cases: u64,
+    pub honest_admitted: u64,
+    pub viol: Vec<(String, String)>,
+    pub machinery: Vec<String>,
+}
+
+#[derive(Clone, Copy, Debug, PartialEq)]
+pub enum RawPeer {
+    /// connects and resets the connection at once (SO_LINGER 0), many times
+    ConnectReset,
+    /// connects and closes at once (FIN), many times
+    ConnectClose,
+    /// sends bytes that are not a preface, then closes
+    Garbage,
+    /// a length prefix announcing 4 GiB, then silence (the connection is held open)
+    HugeFrameThenSilence,
+    /// half of a valid first frame, then reset
+    HalfFrameThenReset,
+}
+
+pub fn run_accept_loop(seed: u64) -> AcceptOutcome {
+    let mut out = AcceptOutcome { cases: 0, honest_admitted: 0, viol: vec![], machinery: vec![] };
+    let rt = tokio::runtime::Builder::new_multi_thread().worker_threads(4).enable_all().build().unwrap();
+    crate::core::quiet_all(std::env::var("VERIF_SHOW_PANICS").is_err());
+    for (i, kind) in [RawPeer::ConnectReset, RawPeer::ConnectClose, RawPeer::Garbage, RawPeer::HugeFrameThenSilence, RawPeer::HalfFrameThenReset].into_iter().enumerate() {
+        if std::env::var("VERIF_ACCEPT_ONLY").ok().and_then(|x| x.parse::<usize>().ok()).map_or(false, |k| k != i) {
+            continue;
+        }
+        out.cases += 1;
+        match rt.block_on(one_accept(seed ^ (i as u64) << 8, kind)) {
+            Ok(None) => out.honest_admitted += 1,
+            Ok(Some(v)) => out.viol.push((format!("accept_loop:{kind:?}"), format!("[accept_loop] raw TCP peers that {}: {v}", match kind {
+                RawPeer::ConnectReset => "connect and reset the connection at once (200 times)",
+                RawPeer::ConnectClose => "connect and close at once (200 times)",
+                RawPeer::Garbage => "send 64 bytes that are not a preface and close (50 times)",
+                RawPeer::HugeFrameThenSilence => "announce a 4 GiB frame and stay silent (20 connections held open)",
+                RawPeer::HalfFrameThenReset => "send half of the first frame and reset (100 times)",
+            }))),
+            Err(e) => out.machinery.push(format!("accept loop, {kind:?}: {e}")),
+        }
+    }
+    crate::core::quiet_all(false);
+    drop(rt);
+    out
+}
+
+async fn one_accept(seed: u64, kind: RawPeer) -> Result<Option<String>, String> {
+    use tokio::io::AsyncWriteExt as _;
+    let rng = &mut util::rng(seed, 0xacce);
+    let c = util::committee(seed, &[1, 1, 1]);
+    let root = ctx::test_root(&ctx::RealClock);
+    // node under test: the public constructor and the real runner
+    let store = NetStore::new(&c.genesis, &[], Lie::Honest, u64::MAX, None);
+    let (mgr, mgr_runner) = EngineManager::new(&root, Box::new(store), time::Duration::seconds(1)).await.map_err(|e| format!("{e:?}"))?;
+    let cfg = make_cfg(rng, None);
+    let (n_key, addr) = (cfg.gossip.key.public(), *cfg.server_addr);
+    let (cons_send, _cons_recv) = sync::prunable_mpsc::unpruned_channel();
+    let (_msg_send, msg_recv) = ctx::channel::unbounded();
+    let (_net, runner) = zksync_consensus_network::Network::new(cfg, mgr, Some(c.epoch), cons_send, msg_recv).map_err(|e| format!("{e:#}"))?;
+    let (stop_send, mut stop) = sync::watch::channel(false);
+    let node = tokio::spawn(async move {
+        let root2 = ctx::test_root(&ctx::RealClock);
+        let r: Result<(), ctx::Error> = scope::run!(&root2, |ctx, s| async move {
+            s.spawn_bg(async move {
+                let _ = mgr_runner.run(ctx).await;
+                Ok(())
+            });
+            let run = s.spawn(async move { runner.run(ctx, false).await.map_err(ctx::Error::Internal) });
+            tokio::select! {
+                r = run.join(ctx) => r.map(|_| ()).map_err(ctx::Error::Canceled),
+                _ = sync::wait_for(ctx, &mut stop, |s| *s) => Err(ctx::Error::Canceled(ctx::Canceled)),
+            }
+        })
+        .await;
+        r
+    });
+    // wait until the node listens
+    let mut up = false;
+    for _ in 0..400 {
+        if tokio::net::TcpStream::connect(addr).await.is_ok() {
+            up = true;
+            break;
+        }
+        tokio::time::sleep(Duration::from_millis(25)).await;
+    }
+    if !up {
+        return Err("the node never started listening".into());
+    }
+    // the raw peers
+    let mut held = vec![];
+    let (n, pause_ms) = match kind {
+        RawPeer::ConnectReset | RawPeer::ConnectClose => (200, 0),
+        RawPeer::Garbage => (50, 0),
+        RawPeer::HugeFrameThenSilence => (20, 0),
+        RawPeer::HalfFrameThenReset => (100, 1),
+    };
+    for _ in 0..n {
+        let Ok(mut tcp) = tokio::net::TcpStream::connect(addr).await else { continue };
+        match kind {
+            RawPeer::ConnectReset => {
+                let _ = tcp.set_linger(Some(Duration::ZERO));
+            }
+            RawPeer::ConnectClose => {}
+            RawPeer::Garbage => {
+                let _ = tcp.write_all(&[0xA5u8; 64]).await;
+            }
+            RawPeer::HugeFrameThenSilence => {
+                let _ = tcp.write_all(&u32::MAX.to_le_bytes()).await;
+                held.push(tcp);
+                continue;
+            }
+            RawPeer::HalfFrameThenReset => {
+                let _ = tcp.write_all(&[2, 0]).await;
+                tokio::time::sleep(Duration::from_millis(pause_ms)).await;
+                let _ = tcp.set_linger(Some(Duration::ZERO));
+            }
+        }
+        drop(tcp);
+    }
+    tokio::time::sleep(Duration::from_millis(300)).await;
+    // required: the network component is still running ...
+    let mut verdict = None;
+    if node.is_finished() {
+        verdict = Some(match node.await {
+            Ok(Ok(())) => "the network component stopped (Runner::run returned Ok)".to_string(),
+            Ok(Err(e)) => format!("the network component stopped with an error: {e:?}"),
+            Err(e) => format!("the network component panicked: {e}"),
+        });
+        return Ok(verdict);
+    }
+    // ... and admits an honest peer (a real gossip network dialling it)
+    let pstore = NetStore::new(&c.genesis, &[], Lie::Honest, u64::MAX, None);
+    let (pmgr, prunner) = EngineManager::new(&root, Box::new(pstore), time::Duration::seconds(1)).await.map_err(|e| format!("{e:?}"))?;
+    let mut pcfg = make_cfg(rng, None);
+    pcfg.gossip.static_outbound.insert(n_key.clone(), zksync_concurrency::net::Host(addr.to_string()));
+    let pnet = nv::VGossip::new(pcfg, pmgr, Some(c.epoch));
+    let pkey = n_key.clone();
+    let pnet2 = pnet.clone();
+    let mut pstop = stop_send.subscribe();
+    let peer = tokio::spawn(async move {
+        let proot = ctx::test_root(&ctx::RealClock);
+        let _: Result<(), ctx::Error> = scope::run!(&proot, |ctx, s| async move {
+            s.spawn_bg(async move {
+                let _ = prunner.run(ctx).await;
+                Ok(())
+            });
+            s.spawn_bg(async move {
+                let r = pnet2.dial(ctx, &pkey, addr).await;
+                if std::env::var("VERIF_DEBUG").is_ok() {
+                    eprintln!("honest dial ended: {r:?}");
+                }
+                Ok(())
+            });
+            let _ = sync::wait_for(ctx, &mut pstop, |s| *s).await;
+            Ok(())
+        })
+        .await;
+    });
+    let admitted = wait_for(60, || pnet.outbound_keys().contains(&n_key)).await;
+    if !admitted {
+        verdict = Some(if node.is_finished() { "the network component stopped".to_string() } else { "an honest peer dialling the node afterwards was not admitted within 60 s".to_string() });
+    }
+    drop(held);
+    stop_send.send_replace(true);
+    let _ = tokio::time::timeout(Duration::from_secs(10), node).await;
+    let _ = tokio::time::timeout(Duration::from_secs(10), peer).await;
+    Ok(verdict)
+}
+
+pub fn report_accept_loop(rep: &mut crate::core::Report, seed: u64) -> serde_json::Value {
+    let d = run_accept_loop(seed);
+    for (k, w) in &d.viol {
+        rep.violations.push(crate::core::Violation { key: k.clone(), what: w.clone(), replay: serde_json::json!({"harness": "gossipnet", "config": {"scenario": "accept_loop"}, "deviations": []}) });
+    }
+    rep.machinery_errors.extend(d.machinery.iter().cloned());
+    if d.viol.is_empty() && d.machinery.is_empty() && d.honest_admitted == 0 {
+        rep.machinery_errors.push("vacuous: no honest peer was ever admitted by the accept loop".into());
+    }
+    serde_json::json!({"raw_peer_behaviours": d.cases, "honest_peer_admitted_afterwards": d.honest_admitted,
+        "rule": "the real Network::new + Runner::run (listener, accept-rate limiter, preface dispatch) over loop-back TCP against raw peers that reset / close at once, send garbage, announce a 4 GiB frame and stay silent, or reset in the middle of the first frame; afterwards the component must still run and admit an honest peer; one run per behaviour"})
+}
